@@ -101,7 +101,7 @@ package browse
 //@   requires [only_a_known_archive_type_is_served] knownArchive(archiveType)
 //@   at call github.com/rakyll/statik/fs.Walk before [walks_the_jailed_filesystem_from_the_requested_directory] arg0 == bc.Fs.Root && arg1 == dirPath
 
-//@ unit listing_sweep props=C19,C02 files=browse.go nilchecks=on nonnil_params=on exclude=`browse\.(directoryListing)$|browse\.Browse\)\.(ServeHTTP|ServeArchive|ServeArchive\$[0-9]+)$` filter=`.`
+//@ unit listing_sweep props=C19,C02 files=browse.go nilchecks=on nonnil_params=on exclude=`browse\.(directoryListing)$|browse\.Browse\)\.formatAs(JSON|HTML)$|browse\.Browse\)\.(ServeHTTP|ServeArchive|ServeArchive\$[0-9]+)$` filter=`.`
 //@ // the rest of the listing code works on request data (sort, order, limit and archive query parameters, cookies, Accept
 //@ // header) and on directory entries: safety sweep - index, slice, nil dereference, division, explicit panic - with the few
 //@ // preconditions the code relies on made explicit and checked at the call sites inside the unit
@@ -189,3 +189,16 @@ package browse
 //@   ensures result1 == nil ==> result0 != nil
 //@ func isSymlinkTargetDir
 //@   requires f != nil && config != nil && config.Fs.Root != nil
+
+//@ unit listing_buffers frames=on props=C02 nilchecks=on filter=`browse\.Browse\)\.formatAs(JSON|HTML)$`
+//@ // C02 "a listing shows this site's files only": the listing is rendered into a buffer made for THIS response (new in this
+//@ // call) - not one taken from a shared pool, which may still hold what an interrupted response of another site left in it
+//@ extern encoding/json.Marshal
+//@ extern (*bytes.Buffer).Write
+//@ extern (*text/template.Template).Execute
+//@ func (Browse).formatAsJSON
+//@   requires listing != nil
+//@   ensures [rendered_into_a_buffer_of_its_own] result0 != nil ==> fresh(result0)
+//@ func (Browse).formatAsHTML
+//@   requires listing != nil && bc != nil && bc.Template != nil
+//@   ensures [rendered_into_a_buffer_of_its_own] result0 != nil ==> fresh(result0)
